@@ -149,4 +149,15 @@ def check(ctx: Ctx) -> str:
     from .c02 import call_emission_rule
 
     call_emission_rule(ctx, "R6")
+
+    ctx.rule("R7", "keyword pass-through: a callable that forwards the template's keyword arguments through **kwargs has no other parameter a keyword could bind to - they are positional-only or name-mangled (__x)")
+    proxies = ("runtime:Macro.__call__", "runtime:Context.call", "sandbox:SandboxedEnvironment.call", "utils:Namespace.__init__")
+    for spec in proxies:
+        fi = repo.func(spec)
+        a = fi.node.args
+        ctx.need(a.kwarg is not None, f"{spec} no longer takes **kwargs")
+        clash = [x.arg for x in a.args + a.kwonlyargs if not x.arg.startswith("__")]
+        ctx.check(not clash, f"proxy:{spec}", spec, f"parameters {clash} can be bound by a template keyword",
+                  f"{spec} takes the template's keyword arguments in **{a.kwarg.arg} but also has the keyword-bindable parameters {clash}: `{{{{ m({clash[0] if clash else 'x'}=1) }}}}` raises TypeError (multiple values for argument) instead of reaching the macro's kwargs - make them positional-only (`/`) or name-mangled",
+                  fi.loc(), detail={"function": spec, "positional_only": [x.arg for x in a.posonlyargs], "clash": clash})
     return __doc__ or ""
